@@ -370,7 +370,7 @@ pub fn run_history(fen: &str, hist: &[u8], depth: u8) -> Option<(Option<String>,
             history: vec![],
             limits: Limits::default(),
             max_depth: Some(d),
-            cut: Cut::ClockNever,
+            cut: Cut::ClockNever, elapsed_ms: None,
         };
         let out = searchrun::run(&board, &case, &Opts { clear_cache: first, observe: false, neutral: false });
         first = false;
